@@ -347,9 +347,10 @@ std::unique_ptr<gsl_matrix_complex,void (*)(gsl_matrix_complex*)>
 SU_vector::GetGSLMatrix() const {
   if( !isinit and !isinit_d)
     throw std::runtime_error("SU_vector::GetGSLMatrix(): SU_vector not initialized.");
-  gsl_matrix_complex * matrix = gsl_matrix_complex_alloc(dim,dim);
-  GetGSLMatrix(matrix);
-  return std::unique_ptr<gsl_matrix_complex,void (*)(gsl_matrix_complex*)>(matrix,gsl_matrix_complex_free);
+  //own the matrix before filling it: the conversion throws for unsupported dimensions
+  std::unique_ptr<gsl_matrix_complex,void (*)(gsl_matrix_complex*)> matrix(gsl_matrix_complex_alloc(dim,dim),gsl_matrix_complex_free);
+  GetGSLMatrix(matrix.get());
+  return matrix;
 }
 
 void gsl_complex_matrix_exponential(gsl_matrix_complex *eA, const gsl_matrix_complex *A, unsigned int dimx){
